@@ -600,7 +600,11 @@ pub fn gen_valid(r: &mut Rng) -> Desc {
     p_waist: dec(r, 20., 500., 2),
     p_bw: dec(r, 0.01, 20., 3),
     p_power: dec(r, 0.1, 500., 2),
-    p_thr: if r.coin() { None } else { Some(*r.pick(&[1e-2, 1e-3, 0.05])) },
+    p_thr: match r.below(4) {
+      0 => None,
+      1 => Some(1e-2),
+      _ => Some(*r.pick(&[1e-3, 0.05, 0.2, 2.5e-2, 0.013579, 1e-4])),
+    },
     signal,
     idler,
     poling,
@@ -1003,7 +1007,7 @@ fn rel_eq(a: f64, b: f64, eps: f64) -> bool {
 }
 
 /// numeric leaves of two configs agree to `eps` relative, everything else exactly
-fn config_close(a: &SPDCConfig, b: &SPDCConfig, eps: f64) -> Result<(), String> {
+pub fn config_close(a: &SPDCConfig, b: &SPDCConfig, eps: f64) -> Result<(), String> {
   let (mut fa, mut fb) = (vec![], vec![]);
   flatten("", &serde_json::to_value(a).unwrap(), &mut fa);
   flatten("", &serde_json::to_value(b).unwrap(), &mut fb);
@@ -1059,14 +1063,16 @@ fn fields_rounded(s: &SPDC, c: &SPDCConfig) -> Result<(), String> {
   chk("pump.average_power_mw", c.pump.average_power_mw, s.pump_average_power.value_unsafe);
   chk("signal.wavelength_nm", c.signal.wavelength_nm, s.signal.vacuum_wavelength().value_unsafe / 1e-9);
   chk("signal.theta_deg", c.signal.theta_deg.unwrap_or(f64::NAN), s.signal.theta_internal().value_unsafe / deg);
-  chk("signal.phi_deg", c.signal.phi_deg, s.signal.phi().value_unsafe / deg);
+  // an azimuth that rounds up to 360.0000 is written as 0
+  let wrap = |x: f64| if (x * 1e4).round() / 1e4 >= 360.0 { x - 360.0 } else { x };
+  chk("signal.phi_deg", c.signal.phi_deg, wrap(s.signal.phi().value_unsafe / deg));
   chk("signal.waist_um", c.signal.waist_um, s.signal.waist().x.value_unsafe / 1e-6);
   chk("signal.waist_position_um", p(&c.signal.waist_position_um), s.signal_waist_position.value_unsafe / 1e-6);
   match &c.idler {
     AutoCalcParam::Param(i) => {
       chk("idler.wavelength_nm", i.wavelength_nm, s.idler.vacuum_wavelength().value_unsafe / 1e-9);
       chk("idler.theta_deg", i.theta_deg.unwrap_or(f64::NAN), s.idler.theta_internal().value_unsafe / deg);
-      chk("idler.phi_deg", i.phi_deg, s.idler.phi().value_unsafe / deg);
+      chk("idler.phi_deg", i.phi_deg, wrap(s.idler.phi().value_unsafe / deg));
       chk("idler.waist_um", i.waist_um, s.idler.waist().x.value_unsafe / 1e-6);
       chk("idler.waist_position_um", p(&i.waist_position_um), s.idler_waist_position.value_unsafe / 1e-6);
       if i.theta_external_deg.is_some() {
@@ -1097,6 +1103,26 @@ fn fields_rounded(s: &SPDC, c: &SPDCConfig) -> Result<(), String> {
     _ => bad.borrow_mut().push("field=periodic_poling on/off-mismatch".into()),
   }
   chk("deff_pm_per_volt", c.deff_pm_per_volt, s.deff.value_unsafe / (1e-12 / 1000.0));
+  // fields that are carried over as they are
+  let carried = |name: &str, ok: bool, got: String, want: String| {
+    if !ok {
+      bad.borrow_mut().push(format!("field={} got={} setup_holds={}", name, got, want));
+    }
+  };
+  carried(
+    "pump.spectrum_threshold",
+    c.pump.spectrum_threshold == Some(s.pump_spectrum_threshold),
+    format!("{:?}", c.pump.spectrum_threshold),
+    format!("{:?}", s.pump_spectrum_threshold),
+  );
+  carried(
+    "crystal.counter_propagation",
+    c.crystal.counter_propagation == cs.counter_propagation,
+    format!("{}", c.crystal.counter_propagation),
+    format!("{}", cs.counter_propagation),
+  );
+  carried("crystal.kind", c.crystal.kind == cs.crystal, format!("{}", c.crystal.kind), format!("{}", cs.crystal));
+  carried("crystal.pm_type", c.crystal.pm_type == cs.pm_type, format!("{}", c.crystal.pm_type), format!("{}", cs.pm_type));
   let bad = bad.into_inner();
   if bad.is_empty() {
     Ok(())
@@ -1111,6 +1137,8 @@ fn fields_sig(why: &str) -> &'static str {
     "as_config/idler-waist-position-unrounded"
   } else if one && why.contains("field=periodic_poling.apodization.fwhm_um") {
     "as_config/gaussian-fwhm-unrounded"
+  } else if one && why.contains("field=pump.spectrum_threshold") {
+    "as_config/spectrum-threshold"
   } else {
     "as_config/fields"
   }
@@ -1235,6 +1263,19 @@ fn c16_case(ctx: &mut Ctx, d: &Desc) {
   let js2 = guard(|| {
     let txt = serde_json::to_string(&s).ok()?;
     let back = SPDC::from_json(&txt).ok()?;
+    let mut lost = vec![];
+    if back.pump_spectrum_threshold != s.pump_spectrum_threshold {
+      lost.push(format!("field=pump.spectrum_threshold first={:?} second={:?}", s.pump_spectrum_threshold, back.pump_spectrum_threshold));
+    }
+    if back.crystal_setup.counter_propagation != s.crystal_setup.counter_propagation {
+      lost.push("field=crystal.counter_propagation".to_string());
+    }
+    if back.crystal_setup.crystal != s.crystal_setup.crystal || back.crystal_setup.pm_type != s.crystal_setup.pm_type {
+      lost.push("field=crystal.kind/pm_type".to_string());
+    }
+    if !lost.is_empty() {
+      return Some(Err(lost.join(" ; ")));
+    }
     let c = back.as_config();
     Some(config_close(&c1, &c, 1e-9))
   })
